@@ -89,6 +89,7 @@ type Outcome struct {
 	MaxOpen      int
 	HookHits     map[string]int
 	StopSeq      int // event seq at which the stop was accepted, -1 if none
+	StopInject   int // event seq at which the stop was issued (before fan-out), -1 if none
 	StopInjected bool
 	SignalReturn int // event seq at which Agent.Signal returned (agent level), -1
 	// agent level
@@ -101,6 +102,9 @@ type Outcome struct {
 	LiveBad    []string
 	RunErr     string
 	Lines      []*model.Status // every status the agent wrote (agent level, RecordWrites)
+	WriteCount int
+	LateWrites int
+	LateText   []string
 }
 
 // Executions counts RUN_ENTER events per step.
@@ -145,6 +149,8 @@ type RunOpts struct {
 	AtBarrier    func(c *Case, r *Runner) // called on the loop goroutine at quiescent decision points
 	OnRunEnter   func(c *Case, step string, attempt int, deps map[string]scheduler.NodeState)
 	RecordWrites bool
+	WriteDelayAt int
+	WriteDelay   time.Duration
 	RetryTarget  *model.Status
 	RetryDAG     *dag.DAG
 	KeepDirs     bool
@@ -409,6 +415,10 @@ func (r *Runner) decisionPoint(kind string) {
 		r.abort("barrier watchdog fired at " + kind)
 		return
 	}
+	if r.stopped.Load() || r.aborted.Load() {
+		// a worker-side hook landed the stop while we waited at the barrier
+		return
+	}
 	if kind == "loop" {
 		defer func() {
 			r.launchedIter = 0
@@ -419,6 +429,11 @@ func (r *Runner) decisionPoint(kind string) {
 	r.decIndex++
 	if spec.Stop != nil && spec.Stop.At == "decision" && !r.stopped.Load() && r.decIndex-1 == spec.Stop.Nth {
 		r.injectStop("decision")
+		return
+	}
+	if spec.Stop != nil && !r.stopped.Load() && r.decIndex > 80 {
+		// the planned instant never comes (e.g. a repeating step keeps the run alive)
+		r.injectStop("fallback")
 		return
 	}
 	if r.opts.AtBarrier != nil {
@@ -554,6 +569,11 @@ func (r *Runner) freeLoop() {
 		r.sameIters = 0
 	}
 	r.lastVec, r.lastEvents = vec, ev
+	r.decIndex++
+	if r.Spec.Stop != nil && !r.stopped.Load() && r.decIndex > 3000 {
+		r.injectStop("fallback")
+		return
+	}
 	active, _, nopen := c.Counts()
 	if active == 0 && nopen == 0 && r.sameIters >= 2000 {
 		r.stuck.Store(true)
@@ -614,9 +634,7 @@ func (r *Runner) injectStop(where string) {
 		r.waitPass()
 		c.Log("CTL", "", "stop.accepted")
 	}
-	if spec.Stop.Kind != "timeout" || true {
-		go r.drain()
-	}
+	go r.drain()
 }
 
 func (r *Runner) waitPass() {
@@ -665,7 +683,7 @@ func Run(spec *CaseSpec, opts *RunOpts) *Outcome {
 	if opts == nil {
 		opts = &RunOpts{}
 	}
-	out := &Outcome{StopSeq: -1, SignalReturn: -1}
+	out := &Outcome{StopSeq: -1, SignalReturn: -1, StopInject: -1}
 	dir, err := os.MkdirTemp(opts.Scratch, "case-")
 	if err != nil {
 		out.Inconclusive = "mkdir: " + err.Error()
@@ -803,6 +821,9 @@ func (r *Runner) finish(out *Outcome, _ error) *Outcome {
 		if e.Kind == "CTL" && e.Info == "stop.accepted" && out.StopSeq < 0 {
 			out.StopSeq = e.Seq
 		}
+		if e.Kind == "CTL" && strings.HasPrefix(e.Info, "stop.inject") && out.StopInject < 0 {
+			out.StopInject = e.Seq
+		}
 		if e.Kind == "CTL" && e.Info == "signal.returned" {
 			out.SignalReturn = e.Seq
 		}
@@ -845,20 +866,51 @@ func (s *recordingStores) HistoryStore() persistence.HistoryStore { return s.hs 
 
 type recordingHistory struct {
 	persistence.HistoryStore
-	mu    sync.Mutex
-	lines []*model.Status
+	mu       sync.Mutex
+	lines    []*model.Status
+	keep     bool
+	n        int
+	delayAt  int // 1-based number of the Write call that is delayed (0 = none)
+	delay    time.Duration
+	closed   bool
+	late     int // Write calls that arrived after Close
+	lateText []string
 }
 
 func (h *recordingHistory) Write(st *model.Status) error {
-	// keep a deep copy through JSON, exactly what the store persists
-	if b, err := st.ToJSON(); err == nil {
-		if cp, err := model.StatusFromJSON(string(b)); err == nil {
-			h.mu.Lock()
-			h.lines = append(h.lines, cp)
-			h.mu.Unlock()
+	h.mu.Lock()
+	h.n++
+	n := h.n
+	if h.keep {
+		// keep a deep copy through JSON, exactly what the store persists
+		if b, err := st.ToJSON(); err == nil {
+			if cp, err := model.StatusFromJSON(string(b)); err == nil {
+				h.lines = append(h.lines, cp)
+			}
 		}
 	}
+	h.mu.Unlock()
+	if n == h.delayAt && h.delay > 0 {
+		// injected delay at the store boundary (a slow disk / descheduled goroutine)
+		time.Sleep(h.delay)
+	}
+	h.mu.Lock()
+	if h.closed {
+		// forwarding would hit the closed store (nil writer): record instead
+		h.late++
+		h.lateText = append(h.lateText, fmt.Sprintf("write #%d (status %q) arrived after Close", n, st.Status.String()))
+		h.mu.Unlock()
+		return nil
+	}
+	h.mu.Unlock()
 	return h.HistoryStore.Write(st)
+}
+
+func (h *recordingHistory) Close() error {
+	h.mu.Lock()
+	h.closed = true
+	h.mu.Unlock()
+	return h.HistoryStore.Close()
 }
 
 func (r *Runner) runAgent(dir string, out *Outcome, pause time.Duration, runDone chan struct{}, schedErr *error) string {
@@ -870,11 +922,9 @@ func (r *Runner) runAgent(dir string, out *Outcome, pause time.Duration, runDone
 	_ = os.MkdirAll(logDir, 0755)
 	out.DataDir, out.LogDir = dataDir, logDir
 	var stores persistence.DataStores = dsclient.NewDataStores(dagsDir, dataDir, filepath.Join(dir, "suspend"), dsclient.DataStoreOptions{})
-	var rec *recordingHistory
-	if r.opts.RecordWrites {
-		rec = &recordingHistory{HistoryStore: stores.HistoryStore()}
-		stores = &recordingStores{DataStores: stores, hs: rec}
-	}
+	rec := &recordingHistory{HistoryStore: stores.HistoryStore(), keep: r.opts.RecordWrites,
+		delayAt: r.opts.WriteDelayAt, delay: r.opts.WriteDelay}
+	stores = &recordingStores{DataStores: stores, hs: rec}
 	cli := client.New(stores, "/bin/false", dir, quietLogger)
 	r.Client, r.Stores = cli, stores
 	var d *dag.DAG
@@ -921,11 +971,16 @@ func (r *Runner) runAgent(dir string, out *Outcome, pause time.Duration, runDone
 			defer func() { _ = recover() }()
 			out.LastStatus = a.Status()
 		}()
-		if rec != nil {
-			rec.mu.Lock()
-			out.Lines = rec.lines
-			rec.mu.Unlock()
+		// give a delayed writer the chance to show up (bounded by the injected delay)
+		if rec.delay > 0 {
+			time.Sleep(rec.delay + 20*time.Millisecond)
 		}
+		rec.mu.Lock()
+		out.Lines = rec.lines
+		out.WriteCount = rec.n
+		out.LateWrites = rec.late
+		out.LateText = append([]string(nil), rec.lateText...)
+		rec.mu.Unlock()
 	}()
 	return ""
 }
